@@ -200,8 +200,11 @@ def gen_settings(rng, max_pto=2, allow_n3lo=False, cheap=False):
     # --- legacy spellings
     if rng.random() < 0.15:
         th["alphaem"] = th.pop("alphaqed")
-    if rng.random() < 0.1:
-        th["QED"] = 0
+    if rng.random() < 0.12:
+        th["QED"] = rng.choice([0, 0, 1])
+    if rng.random() < 0.2:
+        th["XIR"] = rng.choice([2.0, 0.5, 1.0])
+        th["XIF"] = rng.choice([2.0, 0.5, 1.0])
     if rng.random() < 0.1:
         th["CKM"] = [0.97428, 0.2253, 0.00347, 0.2252, 0.97345, 0.041, 0.00862, 0.0403, 0.999152]
     # optional keys may simply be absent (the runner falls back to defaults for these)
